@@ -197,13 +197,19 @@ class SymClient(Client):
     def __init__(self, repo: Repo, f: FuncInfo, event_of: Callable, inline: Optional[Callable] = None,
                  hierarchy: Optional[ExcHierarchy] = None, raises_of: Optional[Callable] = None,
                  depth: int = 0, branch_hook: Optional[Callable] = None,
-                 store_event: Optional[Callable] = None, field_event: Optional[Callable] = None):
+                 store_event: Optional[Callable] = None, field_event: Optional[Callable] = None,
+                 bool_returns: bool = False):
         self.repo = repo
+        self.bool_returns = bool_returns
+        # set while a helper is inlined: its statements are attributed to the line of the call in the analysed function
+        self.site_line: Optional[int] = None
         self.f = f
         self.mod = f.module
         self.cls = f.cls
         self.event_of = event_of
-        self.inline = inline or (lambda fi: False)
+        # helpers (private / newly introduced functions the rules do not anchor on) are always looked into
+        self._user_inline = inline
+        self.inline = (lambda fi: bool(inline(fi)) or repo.is_helper(fi)) if inline is not None else repo.is_helper
         self.raises_of = raises_of
         self.branch_hook = branch_hook
         self.store_event = store_event
@@ -236,7 +242,7 @@ class SymClient(Client):
         return ast.unparse(e2)
 
     def new_token(self, cname: str, node: ast.AST) -> str:
-        return 'NEW_%s_L%d' % (cname, getattr(node, 'lineno', 0))
+        return 'NEW_%s_L%d' % (cname, self.site_line or getattr(node, 'lineno', 0))
 
     # ---------------------------------------------------------------- running
     def run(self, init: Optional[SymState] = None):
@@ -308,11 +314,40 @@ class SymClient(Client):
             args = tuple(self.value_term(a, s.with_ret(None)) if not isinstance(a, ast.Starred) else '*' + self.term(a.value, s)
                          for a in call.args)
             kwargs = tuple((k.arg or '**', self.value_term(k.value, s.with_ret(None))) for k in call.keywords)
+            # a package function called with keywords: canonical positional order (``f(x, last=3, normal=1)``
+            # is ``f(x, 1, 3)``), defaults filled in up to the last parameter given
+            r0 = self._resolve_callee(call.func, s)
+            if isinstance(r0, FuncRef) and kwargs and not any(a.startswith('*') for a in args) and all(k != '**' for k, _ in kwargs):
+                try:
+                    fi0 = self.repo.func(r0.module, r0.qualname)
+                except AnalysisError:
+                    fi0 = None
+                if fi0 is not None and not fi0.node.args.vararg:
+                    ps = fi0.params
+                    if fi0.kind in ('method', 'classmethod') and isinstance(call.func, ast.Attribute):
+                        ps = ps[1:]
+                    kd = dict(kwargs)
+                    dfl = fi0.node.args.defaults
+                    dmap = {p_: ast.unparse(d_) for p_, d_ in zip(ps[len(ps) - len(dfl):], dfl)}
+                    if all(k in ps[len(args):] for k in kd):
+                        last = max(ps.index(k) for k in kd)
+                        canon = list(args)
+                        ok = True
+                        for p_ in ps[len(args):last + 1]:
+                            if p_ in kd:
+                                canon.append(kd[p_])
+                            elif p_ in dmap:
+                                canon.append(dmap[p_])
+                            else:
+                                ok = False
+                                break
+                        if ok:
+                            args, kwargs = tuple(canon), ()
             snap = []
             for a in list(args) + [v for _, v in kwargs]:
                 if is_token(a):
                     snap.append((a, s.fields_of(a)))
-            s = self.emit(s, Event(kind, callee_txt, args, kwargs, tuple(snap), call.lineno, s.conds, self.f.key))
+            s = self.emit(s, Event(kind, callee_txt, args, kwargs, tuple(snap), self.site_line or call.lineno, s.conds, self.f.key))
         r = self._resolve_callee(call.func, s)
         if isinstance(r, ClassRef):
             return [self._alloc(call, self.new_token(r.name, call), s)]
@@ -343,9 +378,10 @@ class SymClient(Client):
         for p, d in zip(params[len(params) - len(defaults):], defaults):
             if p not in env:
                 env[p] = ast.unparse(d)
-        sub = SymClient(self.repo, fi, self.event_of, self.inline, self.hierarchy, self.raises_of,
-                        self.depth + 1, self.branch_hook, self.store_event, self.field_event)
+        sub = SymClient(self.repo, fi, self.event_of, self._user_inline, self.hierarchy, self.raises_of,
+                        self.depth + 1, self.branch_hook, self.store_event, self.field_event, self.bool_returns)
         sub.log = self.log
+        sub.site_line = self.site_line if self.site_line else (call.lineno if self.repo.is_helper(fi) else None)
         init = SymState(frozenset(env.items()), s.heap, s.conds, s.trail)
         o = sub.run(init)
         outs = []
@@ -378,7 +414,7 @@ class SymClient(Client):
                     else:
                         args = (self.value_term(val, st),)
                     snap = tuple((a, st.fields_of(a)) for a in args if is_token(a))
-                    st = self.emit(st, Event('yield', 'yield', args, (), snap, y.lineno, st.conds, self.f.key))
+                    st = self.emit(st, Event('yield', 'yield', args, (), snap, self.site_line or y.lineno, st.conds, self.f.key))
                 nxt.append(st)
             states = nxt
         return states
@@ -471,10 +507,10 @@ class SymClient(Client):
         if isinstance(t, ast.Attribute):
             base = self.term(t.value, s)
             if self.store_event is not None and self.store_event(base + '.' + t.attr):
-                s = self.emit(s, Event('store', base + '.' + t.attr, (term,), (), (), t.lineno, s.conds, self.f.key))
+                s = self.emit(s, Event('store', base + '.' + t.attr, (term,), (), (), self.site_line or t.lineno, s.conds, self.f.key))
             if is_token(base):
                 if self.field_event is not None and self.field_event(base, t.attr):
-                    s = self.emit(s, Event('setfield', base + '.' + t.attr, (term,), (), (), t.lineno, s.conds, self.f.key))
+                    s = self.emit(s, Event('setfield', base + '.' + t.attr, (term,), (), (), self.site_line or t.lineno, s.conds, self.f.key))
                 return s.set_field(base, t.attr, term)
             # write through a non-local object: record as event-free store on a pseudo token
             return s.set_field('EXT:' + base, t.attr, term)
@@ -482,7 +518,7 @@ class SymClient(Client):
             base = self.term(t.value, s)
             key = self.term(t.slice, s)
             if self.store_event is not None and self.store_event(base + '[]'):
-                s = self.emit(s, Event('store', base + '[]', (key, term), (), (), t.lineno, s.conds, self.f.key))
+                s = self.emit(s, Event('store', base + '[]', (key, term), (), (), self.site_line or t.lineno, s.conds, self.f.key))
             return s.set_field(('EXT:' + base) if not is_token(base) else base, '[%s]' % key, term)
         if isinstance(t, ast.Starred):
             return self.assign(t.value, None, '*' + term, s)
@@ -491,6 +527,12 @@ class SymClient(Client):
     def on_return(self, st, s: SymState):
         if st.value is None:
             return [s.with_ret('None')]
+        if self.bool_returns and (isinstance(st.value, (ast.Compare, ast.BoolOp)) or
+                                  (isinstance(st.value, ast.UnaryOp) and isinstance(st.value.op, ast.Not))):
+            # ``return a > b`` is ``if a > b: return True / else: return False``
+            t, f, exc = self.flow.cond(st.value, {s})
+            self._pending_exc |= set(exc)
+            return [x.with_ret('True') for x in t] + [x.with_ret('False') for x in f]
         outs = []
         for s1 in self._eval(st.value, s):
             outs.append(s1.with_ret(self.value_term(st.value, s1)))
